@@ -1059,7 +1059,17 @@ func (c *Component) handleAAAResponse(event events.Event) {
 		return
 	}
 	sess.onAuthResult(resp.Allowed, resp.Attributes)
+	sid := sess.PPPoESessionID
 	sess.mu.Unlock()
+
+	// A rejected (or failed) authentication ends the PPPoE session here and
+	// now. Waiting for the peer to send PADT leaves the session in the
+	// indexes for ever and, when this was a re-authentication after an LCP
+	// renegotiation, leaves the subscriber its pool address and its
+	// programmed dataplane session although AAA has just refused it.
+	if !resp.Allowed {
+		c.handleDeadPeer(sid)
+	}
 }
 
 func (c *Component) allocateSessionID() uint16 {
